@@ -51,6 +51,8 @@ type Op struct {
 	// login
 	State string `json:"state,omitempty"` // what the application's state function returns
 	Extra string `json:"extra,omitempty"` // additional URL parameter option of the application
+	// further URL parameter options handed to rp.AuthURLHandler (login) / rp.AuthURL (call auth_url with Arg "opts"), in order (see urlParamKinds)
+	Extras []string `json:"extras,omitempty"`
 	// the browser's request to the RP's login URL: whatever a link, a form or a script on any site makes the browser send
 	LoginMethod string `json:"login_method,omitempty"` // "" = GET | POST
 	LoginQuery  []KV   `json:"login_query,omitempty"`  // query parameters of the login URL, in order, duplicates possible
@@ -64,6 +66,9 @@ type Op struct {
 	CodeQ      string `json:"code_q,omitempty"`  // attempt | bogus | omit | other
 	ErrorQ     string `json:"error_q,omitempty"` // value of the error parameter ("" none)
 	Method     string `json:"method,omitempty"`  // GET | POST
+	// POST: where the state / code parameter travels: "" = form body | query | both (the same value in query and body)
+	StateIn string `json:"state_in,omitempty"`
+	CodeIn  string `json:"code_in,omitempty"`
 	Muts       []Mut  `json:"muts,omitempty"`
 	TokenExtra bool   `json:"token_extra,omitempty"` // application passes an additional token-request parameter option
 	// callback with StateQ "near": the state parameter is a near miss of the attempt's state (see nearKinds)
@@ -116,7 +121,7 @@ type Case struct {
 // Conc describes a concurrent-login case: len(Logins) goroutines (each its own browser) are released by a barrier and perform
 // Logins[g] logins each through ONE shared rp.AuthURLHandler built with the URL parameter options Params.
 type Conc struct {
-	Params []string `json:"params"` // custom | prompt | locales | mode
+	Params []string `json:"params"` // custom | prompt | locales | mode | any kind of urlParamKinds
 	Logins []int    `json:"logins"`
 }
 
@@ -468,7 +473,7 @@ func genKeys(t *rapid.T, c *Case) {
 	}
 }
 
-func genCallback(t *rapid.T, label string, browser int, latest map[int]int, nAttempts int, pkce bool, consumed bool, noFlow bool) Op {
+func genCallback(t *rapid.T, label string, browser int, latest map[int]int, nAttempts int, pkce bool, consumed bool, noFlow bool, formPost []bool) Op {
 	o := Op{Kind: "callback", Browser: browser, StateQ: "attempt", CodeQ: "attempt", Method: "GET"}
 	last := 0
 	if v, ok := latest[browser]; ok {
@@ -482,10 +487,10 @@ func genCallback(t *rapid.T, label string, browser int, latest map[int]int, nAtt
 	}
 	o.Attempt = last
 	o.Tmpl = pick(t, label+"tmpl", "match", "match", "match", "earlier", "earlier", "restore", "wrongq", "wrongq", "tamper", "tamper",
-		"mint", "mint", "cross", "cross", "drop", "error", "free", "otherbrowser", "near", "near", "near")
+		"mint", "mint", "cross", "cross", "drop", "error", "free", "otherbrowser", "near", "near", "near", "stranger", "stranger", "stranger")
 	if noFlow {
 		// no cookie of this RP exists: only what others minted can be in the jar
-		o.Tmpl = pick(t, label+"tmpl-noflow", "mint", "mint", "mint", "mint", "free", "free", "match", "error")
+		o.Tmpl = pick(t, label+"tmpl-noflow", "mint", "mint", "mint", "mint", "free", "free", "match", "error", "stranger")
 	}
 	// the cookie the manipulation aims at: with PKCE the pkce cookie as often as the state cookie
 	target := "state"
@@ -502,6 +507,18 @@ func genCallback(t *rapid.T, label string, browser int, latest map[int]int, nAtt
 	case "otherbrowser":
 		// the query of an attempt made in the other browser (login CSRF): this jar holds its own, validly signed cookie
 		o.Attempt = anyAttempt()
+	case "stranger":
+		// a browser that never opened the RP's login URL delivers the response of a login some other browser started (the
+		// state and code of that attempt, all genuine): its jar is empty, or holds what another deployment's handler minted
+		o.Browser = strangerBrowser + rapid.IntRange(0, 1).Draw(t, label+"stranger")
+		o.Attempt = anyAttempt()
+		if rapid.IntRange(0, 3).Draw(t, label+"stranger-jar") == 0 {
+			okeys := pick(t, label+"keys", "F1", "F2", "F3", "B")
+			o.Muts = []Mut{{Kind: "mint", Cookie: "state", Keys: okeys, By: "lib", Name: "state", Value: "query"}}
+			if pkce {
+				o.Muts = append(o.Muts, Mut{Kind: "mint", Cookie: "pkce", Keys: okeys, By: "lib", Name: "pkce", Value: "verifier"})
+			}
+		}
 	case "restore":
 		o.Attempt = anyAttempt()
 		switch pick(t, label+"which", "both", "state", "state", "pkce") {
@@ -592,14 +609,13 @@ func genCallback(t *rapid.T, label string, browser int, latest map[int]int, nAtt
 			o.ErrorQ = "access_denied"
 		}
 	}
-	if consumed && o.Tmpl != "restore" && o.Tmpl != "drop" && rapid.IntRange(0, 3).Draw(t, label+"reopen") > 0 {
+	if consumed && o.Tmpl != "restore" && o.Tmpl != "drop" && o.Tmpl != "stranger" && rapid.IntRange(0, 3).Draw(t, label+"reopen") > 0 {
 		// an earlier callback of this history has probably completed and cleared the jar: the browser gets the cookies of its
 		// latest attempt back first, so that the manipulation meets a jar worth manipulating
 		o.Muts = append([]Mut{{Kind: "restore", Cookie: "state", N: last}, {Kind: "restore", Cookie: "pkce", N: last}}, o.Muts...)
 	}
-	if rapid.IntRange(0, 5).Draw(t, label+"post") == 0 {
-		o.Method = "POST"
-	}
+	// the transport: mostly what the provider was asked to use for the attempt the callback refers to
+	genTransport(t, label, &o, o.Attempt >= 0 && o.Attempt < len(formPost) && formPost[o.Attempt])
 	o.TokenExtra = rapid.IntRange(0, 5).Draw(t, label+"tx") == 0
 	return o
 }
@@ -661,6 +677,7 @@ func genCase0(t *rapid.T) Case {
 	latest := map[int]int{}
 	consumed := map[int]bool{}
 	var prevStates []string
+	var formPost []bool // per attempt: the login's options ask the provider for response_mode=form_post
 	nAttempts := 0
 	for i, k := range kinds {
 		label := fmt.Sprintf("op%d-", i)
@@ -674,7 +691,8 @@ func genCase0(t *rapid.T) Case {
 		}
 		if k == "login" {
 			o := Op{Kind: "login", Browser: b, State: genState(t, label+"state", prevStates)}
-			o.Extra = pick(t, label+"extra", "", "", "", "custom", "prompt", "locales")
+			o.Extras = genURLParams(t, label+"opt")
+			formPost = append(formPost, asksFormPost(o.Extras))
 			genLoginRequest(t, label+"login-", &c, &o, prevStates)
 			prevStates = append(prevStates, o.State)
 			latest[b] = nAttempts
@@ -683,9 +701,13 @@ func genCase0(t *rapid.T) Case {
 			c.Ops = append(c.Ops, o)
 			continue
 		}
-		o := genCallback(t, label, b, latest, nAttempts, c.PKCE, consumed[b], noFlow)
+		o := genCallback(t, label, b, latest, nAttempts, c.PKCE, consumed[b], noFlow, formPost)
 		if o.Tmpl == "otherbrowser" && !twoBrowsers {
 			o.Tmpl = "earlier"
+		}
+		if o.Tmpl == "stranger" {
+			c.Ops = append(c.Ops, o)
+			continue
 		}
 		if o.Tmpl == "match" || o.Tmpl == "restore" || (o.Tmpl == "earlier" && o.Attempt == latest[b]) {
 			consumed[b] = true
@@ -826,6 +848,9 @@ type attempt struct {
 	rawPKCE   string
 	challenge string
 	spent     bool // some token request carried this code
+	mode      string // response_mode parameter of the authorization URL ("" none)
+	delivered string // how the provider handed the response to the browser: query | fragment | form_post
+	nonce     bool   // the authorization URL carried a nonce (set through an option; the RP's handlers do not know it)
 }
 
 type handlerHits struct {
@@ -1120,15 +1145,7 @@ func (w *world) login(i int, o Op) {
 	w.att = append(w.att, a)
 	idx := len(w.att) - 1
 
-	var params []rp.URLParamOpt
-	switch o.Extra {
-	case "custom":
-		params = append(params, rp.WithURLParam("foo", "bar baz"))
-	case "prompt":
-		params = append(params, rp.WithPromptURLParam("login"))
-	case "locales":
-		params = append(params, rp.WithURLParam("ui_locales", "de en"))
-	}
+	params := w.urlParamOpts("login", append([]string{o.Extra}, o.Extras...))
 	// like a real application's generator, the state function never returns the same value twice
 	var issued []string
 	h := rp.AuthURLHandler(func() string {
@@ -1304,6 +1321,8 @@ func (w *world) judgeLogin(i, idx int, a *attempt, issued []string, resp *vkit.R
 	// from here on the attempt's state is what the provider will echo to the redirect URI
 	state = urlState
 	a.state = urlState
+	a.mode = q.Get("response_mode")
+	a.nonce = len(q["nonce"]) > 0
 	// the cookie the browser now holds for the name `state` decodes under the RP's keys to that state
 	a.rawState = j.v["state"]
 	if len(set["state"]) == 0 {
@@ -1344,17 +1363,19 @@ func (w *world) judgeLogin(i, idx int, a *attempt, issued []string, resp *vkit.R
 	}
 	w.st.Login(id, "u1")
 	cbr := ag.Callback(id)
-	if !cbr.IsRedirect() {
+	target, dp, how, delivered := deliveredResponse(cbr)
+	if !delivered {
 		res.Label("login:provider-refused")
 		w.note("login#%d: provider callback failed: %s", idx, cbr.Describe())
 		return
 	}
-	dp := vkit.DeliveredParams(cbr.Location())
-	if strings.SplitN(cbr.Location(), "?", 2)[0] != strings.SplitN(w.redirect, "?", 2)[0] || dp.Get("code") == "" {
+	if target != strings.SplitN(w.redirect, "?", 2)[0] || dp.Get("code") == "" {
 		res.Label("login:provider-refused")
 		w.note("login#%d: provider answered %s", idx, cbr.Describe())
 		return
 	}
+	a.delivered = how
+	res.Label("login:response-delivered-by:" + how)
 	if dp.Get("state") != state {
 		res.Label("login:provider-mangled-state")
 	}
@@ -1723,7 +1744,26 @@ func (w *world) callback(i int, o Op) {
 	cbURL, _ := url.Parse(w.redirect)
 	var req *http.Request
 	if o.Method == "POST" {
-		req = httptest.NewRequest("POST", cbURL.String(), strings.NewReader(form.Encode()))
+		// the parameters travel in the form body (what response_mode=form_post makes a browser send); state / code may travel
+		// in the query instead or in both places with the same value (still ONE value per parameter)
+		body, qq := url.Values{}, cbURL.Query()
+		for k, v := range form {
+			in := ""
+			switch k {
+			case "state":
+				in = o.StateIn
+			case "code":
+				in = o.CodeIn
+			}
+			if in == "query" || in == "both" {
+				qq[k] = v
+			}
+			if in != "query" {
+				body[k] = v
+			}
+		}
+		cbURL.RawQuery = qq.Encode()
+		req = httptest.NewRequest("POST", cbURL.String(), strings.NewReader(body.Encode()))
 		req.Header.Set("Content-Type", "application/x-www-form-urlencoded")
 	} else {
 		qq := cbURL.Query()
@@ -1845,7 +1885,12 @@ func (w *world) callback(i int, o Op) {
 			}
 		}
 		accept := codeOf != nil && codeOf.ok && !wasSpent && sendCode && (!w.c.PKCE || pDec == codeOf.verifier)
-		if accept {
+		if accept && codeOf.nonce {
+			// an application that sets a nonce through a URL parameter option has to teach the verifier about it as well;
+			// whether the exchange completes is its business
+			class = "grey:nonce-set-through-an-option"
+			w.grey++
+		} else if accept {
 			class = "must-accept"
 			if codeOf != w.latestIn(o.Browser) || len(o.Muts) > 0 {
 				class = "must-accept:not-the-latest-attempt-or-restored"
@@ -1900,6 +1945,32 @@ func (w *world) callback(i int, o Op) {
 		}
 	}
 	res.Label("cb:" + class)
+	// the transport of the callback, the browser it comes from and what the attempt it refers to asked the provider to use
+	tclass := transportClass(o)
+	res.Label("cb-transport:" + tclass)
+	cookieClass := "state-cookie-present"
+	if !haveState {
+		cookieClass = "no-state-cookie"
+	}
+	if ref != nil {
+		mode := ref.mode
+		if mode != "query" && mode != "fragment" && mode != "form_post" {
+			mode = "(none-or-other)"
+		}
+		res.Label("cb-of-attempt:response_mode=" + mode + "/" + strings.SplitN(tclass, "+", 2)[0] + "/" + cookieClass)
+		if ref.browser != o.Browser {
+			from := "the-other-browser"
+			if o.Browser >= strangerBrowser {
+				from = "a-browser-that-never-logged-in"
+			}
+			pending := "pending"
+			if ref.spent {
+				pending = "completed"
+			}
+			res.Label("cb-from:" + from + "/" + cookieClass + "/attempt-" + pending)
+			w.nontrivial = true
+		}
+	}
 	if o.StateQ != "attempt" {
 		res.Label("stateq:" + o.StateQ)
 	}
@@ -1916,7 +1987,7 @@ func (w *world) callback(i int, o Op) {
 		}
 		res.Label("mut:" + l)
 	}
-	w.classes = append(w.classes, class+"/"+strings.Join(mutLabels, "+")+"/"+o.StateQ+nearKind+"/"+o.CodeQ)
+	w.classes = append(w.classes, class+"/"+strings.Join(mutLabels, "+")+"/"+o.StateQ+nearKind+"/"+o.CodeQ+"/"+tclass)
 	w.note("callback op %d: %s -> %s", i, class, outcome)
 }
 
@@ -1966,9 +2037,12 @@ var prop = vkit.Prop[Case]{
 		"[each login = a generated LOGIN REQUEST: plain GET (3 in 8), or GET with 1-6 query parameters, or POST with a form body (with or without query) - parameter names drawn from the parameters the statement binds (state, client_id, redirect_uri, scope, " +
 		"response_type, code_challenge, code_challenge_method), further OAuth/OIDC names (nonce, prompt, login_hint, ui_locales, request, code_verifier ...) and arbitrary names, values = competing values (other client, foreign redirect URI, wider scope, plain / S256 / junk " +
 		"challenge and method, earlier states) or free strings, one parameter in five repeats an earlier name; one login in five meets a jar manipulated beforehand (foreign / tampered / swapped cookies already present); the authorization URL is judged by the same " +
-		"oracle whatever the login request says] " +
+		"oracle whatever the login request says; each login's handler is built with 0-3 URL PARAMETER OPTIONS (p=7/10 at least one) drawn from every constructor of package rp and own functions: rp.WithResponseModeURLParam " +
+		"(form_post 4x, query, fragment, query.jwt, empty), rp.WithPromptURLParam (login / login consent / select_account / consent / none), rp.WithURLParam (foo, ui_locales, response_mode=form_post, login_hint, max_age, acr_values, display, claims, id_token_hint, ...), " +
+		"application-written URLParamOpt functions (several parameters at once incl. response_mode=form_post, oauth2.AccessTypeOffline / ApprovalForce, no parameter at all); none names a parameter the statement binds; the harness's browser follows whatever the " +
+		"provider answers (redirect with query / fragment, auto-submitted form_post page)] " +
 		"0-4 OTHER CALLS on the same RelyingParty instance at generated positions of the history, also before the first login (rp.ClientCredentials with/without endpoint params, rp.RefreshTokens, rp.Userinfo, rp.EndSession, rp.RevokeToken, rp.VerifyTokens with the tokens of the " +
-		"latest completed login or bogus ones, rp.DeviceAuthorization with the RP's / own / no scopes, rp.CodeExchange with a bogus or a genuine code, rp.AuthURL with prompt / code challenge / URL parameter options and a generated state (judged like a login's URL), the RP's getters); " +
+		"latest completed login or bogus ones, rp.DeviceAuthorization with the RP's / own / no scopes, rp.CodeExchange with a bogus or a genuine code, rp.AuthURL with prompt / code challenge / URL parameter options (also 0-3 of the login handlers' option kinds) and a generated state (judged like a login's URL), the RP's getters); " +
 		"after every such call rp.AuthURL on that instance is judged (configured client, redirect URI, scopes, the state handed in) and so is every later login; " +
 		"application STATES: url-safe tokens, odd ASCII, segments joined by + space / - _ = % %20 %2B tab, standard / url-safe base64 of 1-24 random bytes, words with composed / decomposed / compatibility letters, 1-5 characters, 3000 bytes, repeats of earlier states; " +
 		"1-4 (thorough 1-6) callbacks (rp.CodeExchangeHandler), each callback = (jar manipulation list, query): matching, earlier attempt, other browser's attempt, restored earlier cookies, state omitted/empty/" +
@@ -1977,10 +2051,14 @@ var prop = vkit.Prop[Case]{
 		"without effect on the given state falls through to the next one that has; always delivered correctly URL-encoded), flipped/truncated/extended cookie, cookie minted (by a cookie handler of the library built with the other keys, or by the model codec) under the keys of another deployment = 3 generated foreign key pairs per case derived from A " +
 		"(hash key unrelated / equal / one byte or the whole tail differing at a generated position incl. 0,15,16,31,32,63,64,65,last / A continued by 1-16 bytes / A cut short; encryption key equal / unrelated / one byte differing / other AES size sharing the prefix / present on one side only; " +
 		"at least one key differs) or the fixed 32-byte keys B (hash, block or both), state and pkce cookie of the foreign flow together or alone, cookie under keys A for another name, cookies re-issued by a replica handler with byte-equal keys (must be accepted), " +
-		"swapped state/pkce cookies with the query set to the sealed value, dropped cookies, error= callbacks, GET/POST; one history in ten starts no flow at all (the jar holds only what others minted); " +
+		"swapped state/pkce cookies with the query set to the sealed value, dropped cookies, error= callbacks, " +
+		"callbacks from a STRANGER browser (3 templates in 24: a jar that never opened the login URL - empty, or 1 in 4 holding state (+pkce) cookies a foreign handler minted for the very query - delivering the genuine state and code of any attempt, pending or completed, of another browser on the same RelyingParty instance), " +
+		"TRANSPORT: GET with query, or POST (1 in 5; 2 in 3 when the attempt referred to asked for form_post) with the parameters in an application/x-www-form-urlencoded body, state and code each also/only in the query with p=1/3 (equal values: one state parameter); " +
+		"one history in ten starts no flow at all (the jar holds only what others minted); " +
 		"excluded from the domain: cookies minted under keys A for the right name by anyone but the RP or its replica, handlers whose keys the library cannot use (empty hash key, AES key not 16/24/32 bytes), empty application state, duplicate state parameters / cookies; " +
-		"non-trivial = the history contains a callback that must be refused, or one that must succeed although it is not the browser's latest attempt, or several attempts in one jar, or another call on the RelyingParty followed by the authorization-URL oracle; " +
-		"distinct = (configuration, sequence of (model class, manipulations, state/code query kinds))",
+		"non-trivial = the history contains a callback that must be refused, or one that must succeed although it is not the browser's latest attempt, or several attempts in one jar, or another call on the RelyingParty followed by the authorization-URL oracle, " +
+		"or a callback from a browser other than the one that started the attempt; " +
+		"distinct = (configuration, sequence of (model class, manipulations, state/code query kinds, transport))",
 	Gen: genCase,
 	Run: run,
 }
@@ -2027,6 +2105,14 @@ func TestMatrix(t *testing.T) {
 									{Kind: "call", Call: "revoke", Arg: "refresh"}, {Kind: "call", Call: "end_session"},
 									{Kind: "login", State: "st-three"},
 									{Kind: "callback", Tmpl: "match", Attempt: 2, StateQ: "attempt", CodeQ: "attempt", Method: "GET"},
+									// a second browser logs in through a handler that asks the provider for form_post; while that login is
+									// pending its response arrives (POST, form body) from a browser that never logged in and (GET and POST)
+									// from the first browser, whose jar is empty by now: all refused; then the second browser delivers it
+									{Kind: "login", Browser: 1, State: "st four+", Extras: []string{"prompt:login consent", "mode:form_post", "fn:ui_locales=de+en&login_hint=u1"}},
+									{Kind: "callback", Tmpl: "stranger", Browser: strangerBrowser, Attempt: 3, StateQ: "attempt", CodeQ: "attempt", Method: "POST"},
+									{Kind: "callback", Tmpl: "otherbrowser", Browser: 0, Attempt: 3, StateQ: "attempt", CodeQ: "attempt", Method: "GET"},
+									{Kind: "callback", Tmpl: "otherbrowser", Browser: 0, Attempt: 3, StateQ: "attempt", CodeQ: "attempt", Method: "POST", StateIn: "both"},
+									{Kind: "callback", Tmpl: "match", Browser: 1, Attempt: 3, StateQ: "attempt", CodeQ: "attempt", Method: "POST", CodeIn: "both"},
 								}}
 							// every near-miss kind of the state parameter against the genuine cookies of attempt 1 (all refused: the
 							// cookies stay in the jar for the matching callback that follows)
@@ -2050,7 +2136,8 @@ func TestMatrix(t *testing.T) {
 									got[l]++
 								}
 							}
-							if got["cb:must-reject:state-differs"] < 1+len(nearKinds) || got["cb:must-reject:state-param-absent"] < 1 || got["cb:must-accept"] < 2 {
+							if got["cb:must-reject:state-differs"] < 1+len(nearKinds) || got["cb:must-reject:state-param-absent"] < 1 || got["cb:must-accept"] < 3 || got["cb:must-reject:no-cookie"] < 3 ||
+								!contains(res.Labels, "login:response-delivered-by:form_post") || !contains(res.Labels, "cb-of-attempt:response_mode=form_post/POST/no-state-cookie") {
 								t.Fatalf("matrix cell %+v: harness self-check: classes %v info=%v", c, got, res.Info)
 							}
 							for _, k := range nearKinds {
